@@ -77,7 +77,7 @@ pub struct CoCase {
 
 impl CoCase {
     pub fn n_items(&self) -> usize {
-        self.src_script.iter().filter(|s| matches!(s, Step::Yield(_))).count()
+        self.src_script.iter().filter(|s| matches!(s, Step::Yield(_) | Step::WakeYield)).count()
     }
     pub fn take_min(&self) -> Option<usize> {
         self.stack.iter().filter_map(|a| if let Adapter::Take(n) = a { Some(*n) } else { None }).min()
@@ -107,6 +107,7 @@ impl CoCase {
             Step::Never => "NEVER".into(),
             Step::Yield(true) => "Y".into(),
             Step::Yield(false) => "ERR".into(),
+            Step::WakeYield => "Ywake".into(),
             Step::End => "End".into(),
             Step::Panic => "PANIC".into(),
         };
@@ -886,7 +887,8 @@ fn gen_work(c: &mut Cur, p: &Profile, fallible: bool) -> LeafSpec {
         script.truncate(at);
         script.push(Step::Never);
     } else {
-        script.push(Step::Yield(!(fallible && c.coin(p.p_err))));
+        let ok = !(fallible && c.coin(p.p_err));
+        script.push(if ok && c.coin(20) { Step::WakeYield } else { Step::Yield(ok) });
     }
     LeafSpec { script, always: false, hint: false }
 }
@@ -910,7 +912,7 @@ pub fn gen_co_case(bytes: &[u8], cp: &CoProfile) -> CoCase {
                 });
             }
         }
-        src_script.push(Step::Yield(true));
+        src_script.push(if source == SourceKind::Co && c.coin(16) { Step::WakeYield } else { Step::Yield(true) });
     }
     if source == SourceKind::Co {
         let pends = c.weighted(&[(0usize, 60), (1, 30), (2, 10)]);
